@@ -296,6 +296,18 @@ class Sketch:
     def add_case(self, cid, case):
         var = self.declare(cid, case)
         body = case.get("body", case["calls"])
+        if case.get("for_passes"):
+            # the body inside `for k in range(P):` in setup(): P executions of the same emitted block
+            tl, tr = [f'mon.write("##case {cid}")'], []
+            self._tl, self._tr = tl, tr
+            for j, c in enumerate(body):
+                tl.append(self.call_line(var, c, case.get("style", 0) + j))
+                tl.extend(self.getters(var))
+            self._tl, self._tr = self.lines, self.reads
+            self.lines.append(f"for k{len(self.ids)} in range({case['for_passes']}):")
+            self.lines += ["    " + l for l in tl]
+            self.reads += tr * case["for_passes"]
+            return
         if self.passes:
             self._tl, self._tr = self.loop_lines, self.loop_reads
             self.loop_lines.append(f'mon.write("##case {cid}")')
@@ -675,7 +687,10 @@ def build_cases(ctx):
                [route(PAIR_ALPHABET[n], n % 2 == 1)] + [random_call(rng) for _ in range(rng.randint(0, 2))]
         passes = 2 if n % 3 else 3
         add("loop", body * passes, rng.choice(DEFAULTS), style=rng.randrange(6))
-        cases[-1].update({"passes": passes, "body": body})
+        if n % 4 == 3:
+            cases[-1].update({"for_passes": passes, "body": body})     # `for k in range(P):` in setup()
+        else:
+            cases[-1].update({"passes": passes, "body": body})         # `while True:` -> loop(), P passes
     # (5) two buzzers on different pins, calls interleaved: one buzzer's calls must not touch the other
     for n in range(300 if thorough else 30):
         a = [random_call(rng) for _ in range(rng.randint(1, 4))]
@@ -691,7 +706,7 @@ def build_cases(ctx):
     return cases
 
 
-AUX_KEYS = ("passes", "body", "duo", "duo_id", "duo_role", "duo_order", "partner")
+AUX_KEYS = ("passes", "for_passes", "body", "duo", "duo_id", "duo_role", "duo_order", "partner")
 
 
 def plain(case, **over):
@@ -952,7 +967,7 @@ def run(ctx: C.Ctx):
         import shutil as _sh
         if _sh.which("clang++"):
             pick = [i for i, c in enumerate(cases) if "duo_id" not in c][::7][:600]
-            sub = [plain(cases[i], **({"passes": cases[i]["passes"], "body": cases[i]["body"]} if cases[i].get("passes") else {}))
+            sub = [plain(cases[i], **{k: cases[i][k] for k in ("passes", "for_passes", "body") if k in cases[i]})
                    for i in pick]
             sres, _ = run_firmware(sub, 80, san=True)
             for k, i in enumerate(pick):
@@ -971,7 +986,7 @@ def run(ctx: C.Ctx):
     ctx.coverage.update({
         "evaluations": len(cases) + n_names,
         "distinct_nontrivial": distinct,
-        "rule": "call sequences on one buzzer: (1) every point of the boundary grids (play_tone f x d, beep f x (on,off) x times, sweep s x e x (d,steps), melody x tempo; quick tier cycles the inner product, thorough takes it in full) chained four per case, literal and run-time (analog_read-routed) arguments alternating; (2) all ordered pairs over a 29-call boundary alphabet in four literal/run-time routings; (3) seeded random sequences of length <= 8 with per-argument routing, omitted defaults, keyword/positional spellings and case variants of melody names. Getters are printed before the first and after every call. Non-trivial = contains a call other than stop; distinct by (default, calls).",
+        "rule": "call sequences on one buzzer: (1) every point of the boundary grids (play_tone f x d, beep f x (on,off) x times, sweep s x e x (d,steps), melody x tempo; quick tier cycles the inner product, thorough takes it in full) chained four per case, literal and run-time (analog_read-routed) arguments alternating; (2) all ordered pairs over a 29-call boundary alphabet in four literal/run-time routings; (3) seeded random sequences of length <= 8 with per-argument routing, omitted defaults, keyword/positional spellings and case variants of melody names; (4) a body of 1-4 calls executed for 2-3 passes, inside `while True:` (loop(), state carried by the globals) or inside `for k in range(P):` in setup(); (5) two buzzers on different pins with randomly interleaved calls (each compared with its own model run; events on a foreign pin are failures). Thorough tier: a seventh of the cases re-run under clang++ ASan+UBSan. Getters are printed before the first and after every call. Non-trivial = contains a call other than stop; distinct by (default, calls).",
         "samples": [cases[0], cases[len(cases) // 2], cases[-1]],
         "distribution": {**dist, "cases": len(cases), "calls_compared": n_calls, "sketches": n_sketches,
                          "cases_clean": n_ok, "cases_rerun_under_sanitizers": n_san, "outside_guard_not_generated": n_out_guard, "tone_zero_cases_compared_not_judged": n_tone_zero,
